@@ -2,7 +2,7 @@ PROPERTY = "C11"
 LEVEL = "proof"
 LEAN_MODULES = ["CifModel.Props.C11", "CifModel.Props.ReviewC11"]
 REQUIRED = ["CifModel.C11_table", "CifModel.C11_tree_link", "CifModel.C11_table_tree", "CifModel.C11_version", "CifModel.C11_wrong_encoding",
-            "CifModel.C11_bom_only_first", "CifModel.C11_same_text_any_signature",
+            "CifModel.C11_bom_only_first", "CifModel.C11_same_version_any_signature",
             "CifModel.C11_terminators", "CifModel.C11_cex_named_default_ignored", "CifModel.C11_cex_magic_not_token",
             "CifModel.C11_cex_terminator_forgotten"]
 GEN = ["ParseConsts"]
@@ -34,10 +34,21 @@ ASSUMPTIONS = [
     "when the converter forced on the input (or announced by a wrong signature) does not decode it, nothing is demanded of the "
     "version found for 0 <= prefer_cif2 < 20",
 ]
-PARTIAL = []
+PARTIAL = [
+    "'the same text supplied in any encoding recognised by its signature yields the same content': PROVED is that the two inputs are "
+    "parsed under the same CIF version with the same report about an initial BOM (C11_same_version_any_signature); that both byte "
+    "sequences DECODE to the same code units is ICU's converter (ucnv_*), which is not modelled - observed by family `dialect` on the "
+    "property's table of encodings; given equal units, equal content is the determinism of the parser model (Model.Parser.parse is a "
+    "function of dialect, options and units)",
+    "'a byte-order mark is accepted only as the very first character': proved about the tied scanner / parser models through the C12 "
+    "scanner theorems (C11_bom_only_first: not refused as initial character; one CIF_DISALLOWED_CHAR wherever a scanner function meets it "
+    "inside a token); a U+FEFF BETWEEN tokens (in whitespace position) is covered by the `dialect` / `lex` correspondence only",
+    "the abstraction of the input to a `Header` (what the raw-byte tests and the decoder show of it) is tied by family `dialect` "
+    "(exhaustive table) - not proved; an input that is empty after its optional BOM (`noText`) is outside the theorems: no version is resolved",
+]
 LEVEL_TEXT = ("Proof: C11_table covers every prefer_cif2 : Int (reduced to its four documented ranges by omega), every consistent "
               "input header, both values of force_default_encoding and every default-encoding situation; C11_version, "
-              "C11_wrong_encoding, C11_bom_only_first, C11_same_text_any_signature cover the remaining clauses. The tie to the "
+              "C11_wrong_encoding, C11_bom_only_first, C11_same_version_any_signature cover the remaining clauses. The tie to the "
               "code is exhaustive over the 30 000-cell table of the property plus boundary inputs, through the real cif_parse.")
 LEVEL_NOTE = ("Trusted: Lean kernel; the hand-written cascade model (exhaustively corresponded on the property's table); "
               "translate_consts.py; the two independent transcriptions of the documentation; ICU is observed, not modelled. "
